@@ -4,7 +4,9 @@
 //      compile on the x86-64 host as plain code);
 //   2. in package `shadow_macos` only, and only in arm64_codegenerator.rs and patch_arm64.rs,
 //      the literal `target_os = "macos"` is replaced by `all()` (always true);
-//   3. the accessor snippet `access/<file>.inc`, if present, is appended to the copy.
+//   3. the accessor snippet `access/<file>.inc`, if present, is appended to the copy;
+//   4. in patch_arm.rs only, ` as usize` / ` as isize` become ` as u32 as usize` / ` as i32 as isize`
+//      (pointer-sized integers are 32 bits wide on that target).
 // Then a crate root is generated that declares the same module tree with every module `pub`.
 use std::env;
 use std::fs;
@@ -413,6 +415,12 @@ fn main() {
             text = format!("// [shadow] stripped: {}\n{}", &text[..nl].replace("#!", "# !"), &text[nl + 1..]);
         }
         let name = rel.file_name().unwrap().to_str().unwrap();
+        if name == "patch_arm.rs" {
+            // 4. the 32-bit back end runs on a 64-bit host: integer casts to the pointer-sized
+            //    types go through the 32-bit type first, so that truncation and sign behave as on
+            //    the target (`x as isize` is `x as i32` there)
+            text = text.replace(" as usize", " as u32 as usize").replace(" as isize", " as i32 as isize");
+        }
         let inc = access.join(format!("{}.inc", name));
         if inc.exists() {
             println!("cargo:rerun-if-changed={}", inc.display());
